@@ -9,6 +9,23 @@ from .core import AnalysisError, norm_src
 FUNC = (ast.FunctionDef, ast.AsyncFunctionDef)
 
 
+def clone(node):
+    """Structural copy of an AST (fields and positions only; never follows
+    the ``parent`` back links, unlike copy.deepcopy)."""
+    if isinstance(node, ast.AST):
+        new = node.__class__()
+        for f in node._fields:
+            if hasattr(node, f):
+                setattr(new, f, clone(getattr(node, f)))
+        for a in ('lineno', 'col_offset', 'end_lineno', 'end_col_offset'):
+            if hasattr(node, a):
+                setattr(new, a, getattr(node, a))
+        return new
+    if isinstance(node, list):
+        return [clone(x) for x in node]
+    return node
+
+
 # ---------------------------------------------------------------------------
 # definitions
 
@@ -23,8 +40,52 @@ def body_defs(body):
                     yield sub
 
 
-def find_def(mod, qualname, required=True):
-    """``Class.method`` / ``func`` / ``Class`` -> def node."""
+_inl_cache = {}
+
+
+def _module_of(node):
+    n = node
+    while n is not None and not isinstance(n, ast.Module):
+        n = getattr(n, 'parent', None)
+    return n
+
+
+def inlined(func):
+    """The function with calls of NEW private helpers (not present in the
+    reference tree) replaced by their bodies; see inline.py."""
+    if not isinstance(func, FUNC):
+        return func
+    key = id(func)
+    if key in _inl_cache:
+        return _inl_cache[key]
+    mod = _module_of(func)
+    res = func
+    if mod is not None and getattr(mod, 'relpath', None):
+        from .inline import Inliner
+        cls = getattr(func, 'parent', None)
+        cls = cls if isinstance(cls, ast.ClassDef) else None
+        inl = Inliner(mod, mod.relpath, cls)
+        try:
+            new = inl.inline_function(func)
+            if inl.inlined:
+                res = new
+        except RecursionError:
+            res = func
+    _inl_cache[key] = res
+    _inl_cache[id(res)] = res
+    return res
+
+
+def find_def(mod, qualname, required=True, raw=False):
+    """``Class.method`` / ``func`` / ``Class`` -> def node (functions come
+    with new private helpers inlined unless raw)."""
+    node = _find_def_raw(mod, qualname, required)
+    if node is not None and not raw:
+        return inlined(node)
+    return node
+
+
+def _find_def_raw(mod, qualname, required=True):
     parts = qualname.split('.')
     scope = mod.body
     node = None
@@ -53,8 +114,10 @@ def class_attr_assign(cls, name):
     return val
 
 
-def methods_of(cls):
-    return {st.name: st for st in cls.body if isinstance(st, FUNC)}
+def methods_of(cls, raw=False):
+    if raw:
+        return {st.name: st for st in cls.body if isinstance(st, FUNC)}
+    return {st.name: inlined(st) for st in cls.body if isinstance(st, FUNC)}
 
 
 def enclosing_func(node):
